@@ -300,6 +300,22 @@ var projFixed = []string{
 
 var projPool = []KV{{"a", "1"}, {"a1", "x"}, {"ab", "2"}, {"abc", "10"}, {"b", ""}, {"b-k1", "7"}, {"b\x00k1", "8"}, {"b:k1", "9"}, {":k1", "6"}, {"b1", "7"}, {"ba", "abc"}, {"k1", "3"}, {"k2", "v"}, {"k3", "-4"}, {"l", "2.5"}, {"m", "0"}, {"n", "a,b"}, {"o", "1,2,3"}, {"p", "+5"}, {"zz", "b-k1"}}
 
+// projCollisionStore: for a statement with the fields `a` and `a<sep>b` a store whose FIRST scan chunk starts
+// with the key "b<sep>k1" and whose SECOND chunk starts with "k1" — the two (name, first key) pairs then spell
+// the same text when joined by <sep> — with a rejected pair in the first chunk so that one Batch call spans both
+func projCollisionStore(q string, bs int) []KV {
+	for _, sep := range []string{"-", "\x00", ":"} {
+		if strings.Contains(q, "`a"+sep+"b`") {
+			kvs := []KV{{"b" + sep + "k1", "zz"}}
+			for i := 1; i < bs; i++ {
+				kvs = append(kvs, KV{fmt.Sprintf("c%02d", i), "zz"})
+			}
+			return append(kvs, KV{"k1", "3"}, KV{"k2", "v"}, KV{"k3", "b"})
+		}
+	}
+	return nil
+}
+
 func projStore(r *Rand) []KV {
 	n := r.Intn(len(projPool) + 1)
 	if n < 2 && !r.Chance(1, 6) {
@@ -559,7 +575,9 @@ func runPROJECT(e *Env) (*Summary, error) {
 				r := NewRand(e.Seed, "PROJECT", ix)
 				q := projStatement(r, ix)
 				kvs := projStore(r)
-				if bs == 32 {
+				if cs := projCollisionStore(q, bs); cs != nil && ix/uint64(len(projFixed)) == 3 {
+					kvs = cs
+				} else if bs == 32 {
 					kvs = projBigStore(r, projWideSafe(q))
 				} else if ix%9 == 4 && projWideSafe(q) {
 					kvs = append(kvs, projWidePool[:r.Intn(len(projWidePool)+1)]...)
